@@ -31,7 +31,7 @@ def plan(tier):
 
 
 def gen_cases(ctx):
-    for i in range(ctx.share(ctx.scale(108, 3600))):
+    for i in range(ctx.share(ctx.scale(108, 12000))):
         rng = ctx.rng(1, i)
         c = drive.random_history_case(rng)
         c["kind"] = "F"
